@@ -178,3 +178,66 @@ func latencyProbe(s *Sink, r *Rand) {
 	}
 	s.Extra["latency_probe_operations"] = len(jobs)
 }
+
+// The zone a controller is CONFIGURED with does not change what a call reports: every date-time bearing operation, with the
+// reply's timestamps inside the skipped hour of that zone (process zone UTC), returns what it returns for a controller
+// configured with UTC.
+func deviceZoneProbe(s *Sink, r *Rand) {
+	old := time.Local
+	time.Local = time.UTC
+	defer func() { time.Local = old }()
+	bcd := func(v int) byte { return byte(v/10<<4 | v%10) }
+	n := 0
+	for _, z := range []string{"America/New_York", "Europe/London", "Australia/Lord_Howe", "America/Santiago", "Pacific/Apia"} {
+		loc, err := time.LoadLocation(z)
+		if err != nil {
+			continue
+		}
+		_, prev := time.Date(2021, 1, 1, 0, 0, 0, 0, time.UTC).In(loc).Zone()
+		for t := time.Date(2021, 1, 1, 0, 0, 0, 0, time.UTC); t.Year() < 2022; t = t.Add(30 * time.Minute) {
+			_, off := t.In(loc).Zone()
+			if off > prev {
+				w := t.Add(time.Duration(prev)*time.Second + time.Duration(off-prev)*time.Second/2)
+				stamp := []byte{0x20, bcd(w.Year() % 100), bcd(int(w.Month())), bcd(w.Day()), bcd(w.Hour()), bcd(w.Minute()), bcd(w.Second())}
+				for k := 0; k < nOps; k++ {
+					id := genID(r)
+					oc := genOp(r, k, id, false)
+					if oc.Resp == "" {
+						continue
+					}
+					reply := genReply(r, oc.Resp, id, 0, nil)
+					touched := false
+					for _, f := range replyFields(oc.Resp) {
+						switch f.Text {
+						case "types.DateTime", "*types.DateTime":
+							copy(reply[f.Off:], stamp)
+							touched = true
+						case "types.SystemDate":
+							copy(reply[f.Off:], stamp[1:4])
+							touched = true
+						case "types.SystemTime":
+							copy(reply[f.Off:], stamp[4:7])
+							touched = true
+						}
+					}
+					if !touched {
+						continue
+					}
+					run := func(tz *time.Location) string {
+						cl := newClient(Cfg{Devices: []DevCfg{{ID: id, Name: "z", Proto: "udp", TZ: tz}}})
+						cl.f.script = Script{Kind: "datagrams", Datagrams: [][]byte{reply}}
+						return safeCall(func() string { return oc.Run(cl.u) })
+					}
+					a, b := run(time.UTC), run(loc)
+					n++
+					if a != b {
+						s.Fail(map[string]any{"op": oc.Name, "opcoq": oc.Coq, "tz": z, "reply": hexs(reply), "configured_utc": a, "configured_zone": b},
+							"the result of a call depends on the zone the controller is configured with (timestamp inside that zone's skipped hour)")
+					}
+				}
+			}
+			prev = off
+		}
+	}
+	s.Extra["device_zone_probe_calls"] = n
+}
